@@ -42,6 +42,10 @@ CHECKS = {
    technique="stateful property-based testing in the deterministic daemon simulation over virtual horizons of days: every query is attributed to the back-off schedule of an open search, a refresh mark of a cached record or a follow-up, and every scheduled time must carry its query",
    text="Exploration: 2.4e4 (quick) / 4e5 (thorough) generated search histories (1-3 browses, 0-3 hostname searches, started / stopped / re-issued, responders with TTL 2..5000 s) observed for hours to 3 days of virtual time (~65 scheduled queries per case). Exact comparison of query times with start, +1, +3, +7 ... s, gaps doubling to 2048 s then 3600 s.",
    note="Trusted: simulation hooks and refdns. Exact wake-ups, very large interface-check interval, no interface changes, no verify calls."),
+ "C12": dict(engine=E3, design="6/C12",
+   technique="metamorphic property-based testing in the deterministic daemon simulation: each generated scenario is run woken only as the daemon asks and again with additional idle wake-ups every 10-100 ms; any action that is later or missing in the silent run was due without a timer; plus a spin oracle on the wake-up requests of every iteration",
+   text="Exploration: 6e3 (quick) / 1.5e5 (thorough) scenario pairs over 8-45 s of virtual time mixing all kinds of timed work (probe steps, tiebreak retry, announcement repeat, retransmissions, refreshes, expiries, verify deadlines, hostname timeouts, interface check with interval default/1 s/very large/0), and 2e3 / 4e4 scenarios observed silently for 3 h of virtual time for the no-spin bound. Model-free: the oracle is the relation between the two runs.",
+   note="Trusted: simulation hooks. A late action is reported only if it is late again on a second pair of fresh daemons (HashMap order differs per thread)."),
 }
 
 def check_entry(pid, c):
